@@ -120,7 +120,10 @@ pub fn run(case: &Value) -> Value {
                 Ok(le) => {
                     let mut probes = vec![];
                     for p in st["probes"].as_array().unwrap() {
-                        let env0 = env_of(&p["env0"]);
+                        // ($ROOT in a starting value stands for the sandbox)
+                        let r = root.as_os_str().as_bytes();
+                        let env0v = json!(p["env0"].as_array().unwrap().iter().map(|kv| json!([kv[0].clone(), json_bytes(&replace_bytes(&bytes_of(&kv[1]), b"$ROOT", r))])).collect::<Vec<_>>());
+                        let env0 = env_of(&env0v);
                         let out = le.apply(scope_of(&p["scope"]), &env0);
                         let mut pv = strip_root(&root, &dump_env(&out));
                         if dot_dir {
